@@ -216,7 +216,7 @@ def run(prop, tier, seed):
             if st_self is None:
                 st_self = selftest(prop, r['ndjson'], workdir)
             os.remove(r['ndjson'])
-        if prop in ('C01', 'C03', 'C05', 'C10', 'C12', 'C13', 'C16', 'C18'):
+        if prop in ('C01', 'C02', 'C03', 'C05', 'C10', 'C12', 'C13', 'C16', 'C18'):
             # C13 is also judged on the TCP-MD5 fault scenarios of C12 (they contain operator stops and starts), without the
             # runs in which the application's on_connection_lost callback raises (assumption T8: the agent then still
             # believes in a connection that is gone, and a Cease written on it cannot reach anybody)
@@ -237,7 +237,7 @@ def run(prop, tier, seed):
             nrej = S.judge(prop, rej, nd, job, v)
             cov['configs'].append({'name': 'scenarios-' + prop, 'executions': nscen, 'trace_lines': vst.get('distinct', 1) - 1,
                                    'rejected_lines': nrej,
-                                   'what': 'C01: a NOTIFICATION of every error code x subcode, and every fuzzed frame of type UPDATE (the hostile-input set of C10), in OpenSent / OpenConfirm / Established; C12: random environment behaviour with TCP-MD5 configured and the socket option call failing on chosen attempts; C03: random schedules with a resolution of 1/3000 s around the keepalive / hold instants (hold 0,3,4,10,45,90,180 x peer hold); C05: configurations x session histories x peer OPEN variants + AS_PATH mode probe; '
+                                   'what': 'C02: runs of 0..20 failures of one kind (refused, TCP time-out, reset after the handshake, refused OPEN, mixed) from boot, then a cooperative peer; C01: a NOTIFICATION of every error code x subcode, and every fuzzed frame of type UPDATE (the hostile-input set of C10), in OpenSent / OpenConfirm / Established; C12: random environment behaviour with TCP-MD5 configured and the socket option call failing on chosen attempts; C03: random schedules with a resolution of 1/3000 s around the keepalive / hold instants (hold 0,3,4,10,45,90,180 x peer hold); C05: configurations x session histories x peer OPEN variants + AS_PATH mode probe; '
                                            'C10: structure-aware and mutation fuzz (seeds: every bytes literal of the unit tests) in OpenSent/OpenConfirm/Established + known-good probe'})
             cov['traces_validated_against_impl'] += nscen
             cov['lines_validated'] += vst.get('distinct', 1) - 1
